@@ -228,4 +228,6 @@ def run(ck, ix, tier):
     scalar_coercion_rule(ck, ix)
     from .C05 import eq_zero_rule
     eq_zero_rule(ck, ix)  # equality is one of the operators of C03
+    from .C16 import inplace_primitives_rule
+    inplace_primitives_rule(ck, ix)  # only in-place forms may rescale/rebind their target
     return EXPLANATION
